@@ -12,7 +12,7 @@ FUNCTIONS = ["Backend.__init__", "Backend.downsize", "BackendZ3._is_true", "Back
 TRUSTED = ["z3.simplify is meaning preserving (contract used for BackendZ3._is_true/_is_false: an equivalent term, the literal only if the fact holds)",
            "C01: folding of concrete Bool expressions is exact (convert of a concrete Bool is its value)",
            "C06: the cache key e.hash() identifies the expression",
-           "frontend is_true/is_false layers pass the question to the backend unchanged (FullFrontend, ConcreteHandlerMixin, ConstraintFilterMixin): checked in the bounded C11 histories only",
+           "frontend is_true/is_false layers: ConcreteHandlerMixin and ConstraintFilterMixin are proved to answer True only if the fact holds in every model (layer.*.is_true / is_false, shared with C11); FullFrontend.is_true/is_false hand the question to the backend with the solver's constraints (fullfrontend.is_true/is_false, C11)",
            "BackendVSA._is_true/_is_false: relative to C24"]
 ASSUMPTIONS = []
 
@@ -25,6 +25,8 @@ def tasks(tier, seed=0):
         out.append(task(M, "ob_bool_check", f"truth.bool_check.{w}/sound", ["C10"], which=w))
         out.append(task(M, "ob_bool_check_node", f"truth.bool_check.{w}[structured-expression]/sound", ["C10"], which=w))
         out.append(task(M, "ob_z3_truth", f"truth.BackendZ3._{w}/sound-for-every-solver", ["C10"], which=w))
+    from vf.contracts import layers
+    out += [t for t in layers.all_tasks(tier, only=("ConcreteHandlerMixin", "ConstraintFilterMixin")) if t["id"].split("/")[0].endswith(("is_true", "is_false"))]
     out.append(task(M, "ob_backend_init_downsize", "truth.Backend.__init__+downsize/caches-separate-and-empty", ["C10"]))
     out.append(task(M, "ob_cache_writers", "truth.caches/only-methods-under-contract-touch-them", ["C10"]))
     return out
